@@ -86,10 +86,10 @@ type pooledServer struct {
 }
 
 var (
-	poolMu sync.Mutex
+	poolMu  sync.Mutex
 	startMu sync.Mutex
-	pool   = map[srvKey]*pooledServer{}
-	pa     *h.PortAlloc
+	pool    = map[srvKey]*pooledServer{}
+	pa      *h.PortAlloc
 )
 
 // serverFor starts (once) and returns the shared server with the given TLS policy.
@@ -104,33 +104,38 @@ func serverFor(k srvKey) (*pooledServer, error) {
 	ps.once.Do(func() {
 		rng := run.RandFor("server|"+k.String(), 0)
 		ps.Token = newMarker(rng)
-		ports := pa.Block(4)
-		ps.Bind, ps.Quic, ps.Vhost, ps.TMux = ports[0], ports[1], ports[2], ports[3]
-		var sb strings.Builder
-		fmt.Fprintf(&sb, "bindAddr = \"127.0.0.1\"\nproxyBindAddr = \"127.0.0.1\"\nbindPort = %d\nkcpBindPort = %d\nquicBindPort = %d\n", ps.Bind, ps.Bind, ps.Quic)
-		fmt.Fprintf(&sb, "vhostHTTPPort = %d\ntcpmuxHTTPConnectPort = %d\n", ps.Vhost, ps.TMux)
-		fmt.Fprintf(&sb, "auth.token = \"%s\"\nallowPorts = [{start=15000,end=15999}]\nuserConnTimeout = 10\n", ps.Token)
-		if k.Scopes {
-			sb.WriteString("auth.additionalScopes = [\"HeartBeats\", \"NewWorkConns\"]\n")
+		for try := 0; try < 5; try++ { // another process may grab a port between allocation and bind
+			ports := pa.Block(4)
+			ps.Bind, ps.Quic, ps.Vhost, ps.TMux = ports[0], ports[1], ports[2], ports[3]
+			var sb strings.Builder
+			fmt.Fprintf(&sb, "bindAddr = \"127.0.0.1\"\nproxyBindAddr = \"127.0.0.1\"\nbindPort = %d\nkcpBindPort = %d\nquicBindPort = %d\n", ps.Bind, ps.Bind, ps.Quic)
+			fmt.Fprintf(&sb, "vhostHTTPPort = %d\ntcpmuxHTTPConnectPort = %d\n", ps.Vhost, ps.TMux)
+			fmt.Fprintf(&sb, "auth.token = \"%s\"\nallowPorts = [{start=15000,end=15999}]\nuserConnTimeout = 10\n", ps.Token)
+			if k.Scopes {
+				sb.WriteString("auth.additionalScopes = [\"HeartBeats\", \"NewWorkConns\"]\n")
+			}
+			fmt.Fprintf(&sb, "transport.tcpMux = %v\ntransport.maxPoolCount = 3\n", k.Mux)
+			switch k.Mode {
+			case "force":
+				sb.WriteString("transport.tls.force = true\n")
+			case "ca":
+				fmt.Fprintf(&sb, "transport.tls.trustedCaFile = \"%s\"\n", pki.GoodCA)
+			}
+			switch k.Cert {
+			case "good":
+				fmt.Fprintf(&sb, "transport.tls.certFile = \"%s\"\ntransport.tls.keyFile = \"%s\"\n", pki.SrvGoodCrt, pki.SrvGoodKey)
+			case "othername":
+				fmt.Fprintf(&sb, "transport.tls.certFile = \"%s\"\ntransport.tls.keyFile = \"%s\"\n", pki.SrvOtherNameCrt, pki.SrvOtherNameKey)
+			case "otherca":
+				fmt.Fprintf(&sb, "transport.tls.certFile = \"%s\"\ntransport.tls.keyFile = \"%s\"\n", pki.SrvOtherCACrt, pki.SrvOtherCAKey)
+			}
+			startMu.Lock() // NewService writes package-level state: one at a time
+			ps.Srv, ps.Err = h.StartServerText(prop, sb.String())
+			startMu.Unlock()
+			if ps.Err == nil || !strings.Contains(ps.Err.Error(), "address already in use") {
+				break
+			}
 		}
-		fmt.Fprintf(&sb, "transport.tcpMux = %v\ntransport.maxPoolCount = 3\n", k.Mux)
-		switch k.Mode {
-		case "force":
-			sb.WriteString("transport.tls.force = true\n")
-		case "ca":
-			fmt.Fprintf(&sb, "transport.tls.trustedCaFile = \"%s\"\n", pki.GoodCA)
-		}
-		switch k.Cert {
-		case "good":
-			fmt.Fprintf(&sb, "transport.tls.certFile = \"%s\"\ntransport.tls.keyFile = \"%s\"\n", pki.SrvGoodCrt, pki.SrvGoodKey)
-		case "othername":
-			fmt.Fprintf(&sb, "transport.tls.certFile = \"%s\"\ntransport.tls.keyFile = \"%s\"\n", pki.SrvOtherNameCrt, pki.SrvOtherNameKey)
-		case "otherca":
-			fmt.Fprintf(&sb, "transport.tls.certFile = \"%s\"\ntransport.tls.keyFile = \"%s\"\n", pki.SrvOtherCACrt, pki.SrvOtherCAKey)
-		}
-		startMu.Lock() // NewService writes package-level state: one at a time
-		ps.Srv, ps.Err = h.StartServerText(prop, sb.String())
-		startMu.Unlock()
 		if ps.Err == nil {
 			run.Count("servers_started", 1)
 		}
